@@ -28,6 +28,7 @@ E1_SCENARIOS_QUICK = [
     "S1-put-get-get", "S2-ac-overwrite", "S3-evict-vs-read", "S4-corrupt-get-get",
     "S5-corrupt-get-put", "S6-corrupt-get-evict-reput", "S7-three-puts-tight", "S10-contains-vs-overwrite",
     "S11-commit-refused-by-reservation", "S12-get-vs-two-overwrites", "S13-get-vs-reupload-other-format",
+    "S14-unreserved-overwrite-under-reservation",
 ]
 ZSTD_ONLY = {"S4-corrupt-get-get", "S5-corrupt-get-put", "S6-corrupt-get-evict-reput"}
 
@@ -127,7 +128,7 @@ def check_C03(ctx):
     th = ctx.thorough()
     jobs = e2lru_jobs(ctx, "C03", 6 if th else 4, 1500 if th else 300)
     jobs += e2cache_jobs(ctx, "C03", 4 if th else 3, 1500 if th else 300, 8 if th else 2, proxies=("0", "1", "2"))
-    jobs += e1_jobs(ctx, "C03", ["S3-evict-vs-read", "S5-corrupt-get-put", "S7-three-puts-tight", "S11-commit-refused-by-reservation"], 3 if th else 2, 2 if th else 1, 1200 if th else 300, oracle="C03@")
+    jobs += e1_jobs(ctx, "C03", ["S3-evict-vs-read", "S5-corrupt-get-put", "S7-three-puts-tight", "S11-commit-refused-by-reservation", "S14-unreserved-overwrite-under-reservation"], 3 if th else 2, 2 if th else 1, 1200 if th else 300, oracle="C03@")
     return dict(level="model_checking", jobs=jobs,
                 rule="explicit-state BFS over operation sequences on the real SizedLRU and on a real disk cache (accounting equation, reserved==0, Stats()==index on every transition) plus all preemption-bounded schedules of three concurrent scenarios (equation at every scheduling point); distinct = distinct canonical states / distinct observed histories; environment deviation in the alphabet: uploads whose file cannot be created (os.OpenFile fails, injected through the os shim); E2-cache also from a preloaded backend (blobs that exist only in the backend)",
                 assumptions=E2_ASSUME + E1_ASSUME)
@@ -143,7 +144,7 @@ def check_C04(ctx):
             "VERIF_PARAM_PROPERTY": "C04", "VERIF_PARAM_DEPTH": "3" if th else "2", "VERIF_PARAM_CONFIG": "shard%d" % sh,
             "VERIF_SHARD": "%d/8" % sh, "VERIF_BUDGET_S": str(1500 if th else 300), "GOMAXPROCS": "2"}))
     return dict(level="model_checking", jobs=jobs,
-                rule="from non-initial states: four earlier lives of the directory written under either storage mode, restarted under either storage mode, then BFS (depth 2 quick / 3 thorough) over the same alphabet with directory==index, the accounting equation and reserved==0 after every transition; explicit-state BFS over operation sequences (incl. uploads failing by hash, short reader, reader error, trailing byte, oversize, and faulty backend fetches) on a real disk cache: directory listing == index after every transition once deletions drained; plus the same at quiescence of every explored schedule of four concurrent scenarios; E2-cache also from a preloaded backend (blobs that exist only in the backend)",
+                rule="from non-initial states: four earlier lives of the directory written under either storage mode, restarted under either storage mode, then BFS (depth 2 quick / 3 thorough) over the same alphabet with directory==index, the accounting equation and reserved==0 after every transition; explicit-state BFS over operation sequences (incl. uploads failing by hash, short reader, reader error, trailing byte, oversize, and faulty backend fetches) on a real disk cache: directory listing == index after every transition once deletions drained; plus the same at quiescence of every explored schedule of four concurrent scenarios; E2-cache also from a preloaded backend (blobs that exist only in the backend); zero-length RAW value in the alphabet and as an earlier life",
                 assumptions=E2_ASSUME + E1_ASSUME)
 
 
@@ -162,7 +163,7 @@ def check_C01(ctx):
     for cfg in CONFIGS:
         jobs.append(Job(ctx.bin(GRID), "TestC01BatchLists", name="C01:batchlists/" + cfg, timeout=2400, env={"VERIF_PARAM_CONFIG": cfg, "GOMAXPROCS": "4"}))
     return dict(level="exploration", jobs=jobs,
-                rule="full product storage mode x zstd implementation x 13 write paths x sizes on block/chunk edges x content kind x corruption kind (data, declared size, declared hash, framing, compressor, abort), each cell with fresh digests through the real HTTP/gRPC handlers; after a complete zstd frame 1-9 stray zero bytes or a further frame cut at 1-9 bytes; the wrong-declared-size cells repeated from the non-initial state in which the true blob (same hash, true size) is already present; multi-item BatchUpdateBlobs: every sequence up to length 3 (4 thorough) over {good, flipped, size+1, truncated, previous good again, previous good digest with flipped data}, identity and zstd transport: each item answered on its own merits; non-trivial = distinct (path, corruption, size, content) cells that were accepted or rejected with the post-conditions checked",
+                rule="full product storage mode x zstd implementation x 13 write paths x sizes on block/chunk edges x content kind x corruption kind (data, declared size, declared hash, framing, compressor, abort), each cell with fresh digests through the real HTTP/gRPC handlers; after a complete zstd frame 1-9 stray zero bytes or a further frame cut at 1-9 bytes; the wrong-declared-size cells repeated from the non-initial state in which the true blob (same hash, true size) is already present; multi-item BatchUpdateBlobs: every sequence up to length 3 (4 thorough) over {good, flipped, size+1, truncated, previous good again, previous good digest with flipped data}, identity and zstd transport: each item answered on its own merits; declared hash = hash of the empty blob with a non-zero size; non-trivial = distinct (path, corruption, size, content) cells that were accepted or rejected with the post-conditions checked",
                 assumptions=["in-process servers (httptest recorder / bufconn), the same handlers main() wires up",
                              "blob contents are deterministic pseudo-random or mostly-zero bytes selected by VERIF_SEED; the enumerated grid does not depend on the seed",
                              "FetchBlob origins are loopback httptest servers"])
@@ -230,7 +231,7 @@ def check_C06(ctx):
     if unfixed["errors"] == 0:
         raise V.Broken("Spin finds no violation in the unrepaired model variant: the model cannot express the defect")
     return dict(level="exploration", jobs=jobs, extra_cov=extra,
-                rule="every ActionResult shape of a bounded grammar (0-2 output files each digest-only/inline/empty-blob; output directory with Tree variants incl. children and a nil digest; stdout/stderr digest nil/set/empty) x every assignment of {present, absent, stored with another size} (or {present, absent, backend only} with a backend) to its <=5 (7 thorough) referenced blobs, x gRPC GetActionResult, HTTP GET and HEAD; 25 output files with each single one absent (across the batch of 20); recency after a hit; aliasing: every ordered pair of reference slots naming the same stored blob (hit), the same hash with size+1 / size-1 in either order (miss), the same absent digest (miss); with a backend the alphabet has a fourth class X = held by the backend only and larger than max_proxy_blob_size (not obtainable: miss); tree-file-fault: the Tree blob indexed but its file removed behind the cache (must be a miss, never an error); non-trivial = distinct (shape, assignment) cells",
+                rule="every ActionResult shape of a bounded grammar (0-2 output files each digest-only/inline/empty-blob; output directory with Tree variants incl. children and a nil digest; stdout/stderr digest nil/set/empty) x every assignment of {present, absent, stored with another size} (or {present, absent, backend only} with a backend) to its <=5 (7 thorough) referenced blobs, x gRPC GetActionResult, HTTP GET and HEAD; 25 output files with each single one absent (across the batch of 20); recency after a hit; aliasing: every ordered pair of reference slots naming the same stored blob (hit), the same hash with size+1 / size-1 in either order (miss), the same absent digest (miss); with a backend the alphabet has a fourth class X = held by the backend only and larger than max_proxy_blob_size (not obtainable: miss); tree-file-fault: the Tree blob indexed but its file removed behind the cache (must be a miss, never an error); stdout / stderr given BOTH inline and by digest (the digest is a reference like any other); non-trivial = distinct (shape, assignment) cells",
                 assumptions=["AC entries are stored directly through the disk layer (UpdateActionResult does not check dependencies either)",
                              "the backend is a scriptable cache.Proxy; the fail-fast join with a backend is additionally model-checked (E5) and its trails replayed"])
 
@@ -256,7 +257,7 @@ def check_C11(ctx):
     jobs = [Job(g, "TestC11", name="C11:%s#%d" % (mode, sh), timeout=3600, env={"VERIF_PARAM_MODE": mode, "GOMAXPROCS": "4", "VERIF_SHARD": "%d/%d" % (sh, shards)})
             for mode in ("zstd", "uncompressed") for sh in range(shards)]
     return dict(level="exploration", jobs=jobs,
-                rule="message grammar: a fully populated valid ActionResult and four further valid shapes, plus one invalid field of each kind (empty/absolute path, empty target, nil digest, empty element, negative size, short/upper-case/non-hex/empty hash) at every position where it can occur (output files, output directories, the three symlink lists, stdout/stderr digests) x 5 encodings (gRPC, HTTP protobuf, HTTP JSON, each also zstd-wrapped); validation disabled; all 8 inline-request combinations x stdout size {small, exactly the 3 MiB budget, over it}; alternating overwrites through all encodings with invalid uploads in between; execution metadata: every subset of {worker, queued/completed timestamps, virtual duration, auxiliary metadata}; each optional part of the full message dropped alone; two deviations at once: ordered pairs of variants (quick: a valid shape with an invalid one, gRPC and HTTP protobuf; thorough: all ordered pairs, all five encodings), expected verdict from the harness's own reference validator, which is first checked against every single variant's label; inline cells for results uploaded over gRPC and over HTTP: after every hit each de-inlined field's digest resolves in the CAS to the uploaded bytes; non-trivial = distinct (message, encoding) cells accepted or rejected with the post-conditions checked",
+                rule="message grammar: a fully populated valid ActionResult and four further valid shapes, plus one invalid field of each kind (empty/absolute path, empty target, nil digest, empty element, negative size, short/upper-case/non-hex/empty hash) at every position where it can occur (output files, output directories, the three symlink lists, stdout/stderr digests) x 5 encodings (gRPC, HTTP protobuf, HTTP JSON, each also zstd-wrapped); validation disabled; all 8 inline-request combinations x stdout size {small, exactly the 3 MiB budget, over it}; alternating overwrites through all encodings with invalid uploads in between; execution metadata: every subset of {worker, queued/completed timestamps, virtual duration, auxiliary metadata}; each optional part of the full message dropped alone; two deviations at once: ordered pairs of variants (quick: a valid shape with an invalid one, gRPC and HTTP protobuf; thorough: all ordered pairs, all five encodings), expected verdict from the harness's own reference validator, which is first checked against every single variant's label; inline cells for results uploaded over gRPC and over HTTP: after every hit each de-inlined field's digest resolves in the CAS to the uploaded bytes; stdout / stderr inline WITH a digest: matching (valid) and each malformed digest kind (invalid); non-trivial = distinct (message, encoding) cells accepted or rejected with the post-conditions checked",
                 assumptions=["nil elements of repeated fields cannot be put on the wire by the protobuf runtime; empty elements stand in for them",
                              "an empty output-directory path is valid (REAPI: the working directory itself)"])
 
@@ -277,7 +278,7 @@ def check_C12(ctx):
         for mode in ("zstd", "uncompressed"):
             jobs.append(Job(g, "TestC12Chain", name="C12chain:%s/%s" % (via, mode), timeout=600, env={"VERIF_PARAM_VIA": via, "VERIF_PARAM_MODE": mode}))
     return dict(level="fault_enumeration", jobs=jobs,
-                rule="seam level: kind {CAS,AC,RAW} x storage mode x size known/unknown x plain/zstd read x backend deviation {none, error, not found, nil reader, size metadata +1/-1/-1/0/over max_proxy_blob_size, one-byte reads, cancelled context, stream error at EVERY byte offset, clean EOF at EVERY byte offset}; 1 deviation quick, pairs (second read deviates too) thorough; then a local-only read with the backend emptied (poisoning) and the quiescence invariants; plus explicit-state BFS over operation sequences with a backend (write-through exactly once, decodable; read-through; faults mixed into sequences); fault class oversize: the object really is larger than max_proxy_blob_size (limit = size-1, size/2): never served, never cached; HTTP chain: the stored object's own header lies about the logical size (0, -1, +-1; short and 4 MiB bodies) - leak oracles only (the backend is trusted for content); non-trivial = distinct fault cells completed with the oracle checked",
+                rule="seam level: kind {CAS,AC,RAW} x storage mode x size known/unknown x plain/zstd read x backend deviation {none, error, not found, nil reader, size metadata +1/-1/-1/0/over max_proxy_blob_size, one-byte reads, cancelled context, stream error at EVERY byte offset, clean EOF at EVERY byte offset}; 1 deviation quick, pairs (second read deviates too) thorough; then a local-only read with the backend emptied (poisoning) and the quiescence invariants; plus explicit-state BFS over operation sequences with a backend (write-through exactly once, decodable; read-through; faults mixed into sequences); fault class oversize: the object really is larger than max_proxy_blob_size (limit = size-1, size/2): never served, never cached; HTTP chain: the stored object's own header lies about the logical size (0, -1, +-1; short and 4 MiB bodies) - leak oracles only (the backend is trusted for content); faithful backend, reads at offsets 1, n/2, n-1 (plain and zstd), first through the backend, then the local hit; non-trivial = distinct fault cells completed with the oracle checked",
                 assumptions=["the backend is trusted for content it completely delivers (no bit flips)",
                              "scriptable in-memory cache.Proxy at the seam the real proxies implement; HTTP/gRPC proxy implementations are exercised by the chained-cache part",
                              "objects are 60-150 logical bytes so that every byte offset of the stored form is enumerated"] + E2_ASSUME[:2])
@@ -302,7 +303,7 @@ def check_C15(ctx):
     jobs = [Job(g, "TestC15", name="C15:instances/" + mode, timeout=1200, env={"VERIF_PARAM_MODE": mode, "GOMAXPROCS": "4"}) for mode in ("zstd", "uncompressed")]
     jobs += e2cache_jobs(ctx, "C15", 4 if th else 3, 1500 if th else 300, 8 if th else 2, proxies=("0",))
     return dict(level="model_checking", jobs=jobs,
-                rule="explicit-state BFS over operation sequences on a real disk cache in which the CAS, AC and RAW key spaces collide on ONE hash (uploads good and failing, overwrites, evictions, lookups, zstd reads), compared with three independent reference maps on every transition; plus the full product of 12 instance names (empty, nested, containing ac/cas/blobs/uploads segments, unicode, spaces, case, trailing slash) x store via gRPC or HTTP x read via gRPC or HTTP under every instance name x mangling on/off x HTTP validation on/off; server level: every HTTP action-cache lookup repeated by a client that accepts zstd (must answer identically, never compressed); one hash stored as CAS blob, validated and raw action result in six orders; 20 instance names incl. eight longer than 64 bytes that agree in their first 62/63/64/100 bytes",
+                rule="explicit-state BFS over operation sequences on a real disk cache in which the CAS, AC and RAW key spaces collide on ONE hash (uploads good and failing, overwrites, evictions, lookups, zstd reads), compared with three independent reference maps on every transition; plus the full product of 12 instance names (empty, nested, containing ac/cas/blobs/uploads segments, unicode, spaces, case, trailing slash) x store via gRPC or HTTP x read via gRPC or HTTP under every instance name x mangling on/off x HTTP validation on/off; server level: every HTTP action-cache lookup repeated by a client that accepts zstd (must answer identically, never compressed); one hash stored as CAS blob, validated and raw action result in six orders; 20 instance names incl. eight longer than 64 bytes that agree in their first 62/63/64/100 bytes; the empty blob's hash as an action key (never stored => absent on HEAD/GET/gRPC; after an upload HEAD agrees with GET; CAS empty blob undisturbed)",
                 assumptions=E2_ASSUME + ["instance names without leading/trailing slash (REAPI-conformant); an HTTP path with an empty segment is redirected by net/http before it reaches the handler"])
 
 
@@ -339,8 +340,9 @@ def check_C20(ctx):
     jobs.append(Job(g, "TestC20Golden", name="C20:golden", timeout=900))
     jobs.append(Job(ctx.bin("./cache/s3proxy"), "TestVfC20Names", name="C20:names/s3", timeout=300))
     jobs.append(Job(ctx.bin("./cache/azblobproxy"), "TestVfC20Names", name="C20:names/azblob", timeout=300))
+    jobs.append(Job(ctx.bin("./cache/azblobproxy"), "TestVfC20Wire", name="C20:wire-names/azblob", timeout=300))
     return dict(level="exploration", jobs=jobs,
-                rule="(a) files laid out by the harness's independent implementation of the published v2 format: chunk size {4 KiB, 64 KiB, 1 MiB, 3 MiB} x blob sizes around each x encoder {klauspost fastest/default/best, libzstd 1/19} x content kind x suffix shape, identity-compression v2 files, raw .v1 files, AC files with arbitrary suffixes; served by this build in every (storage mode, zstd implementation) through all read paths at boundary offsets; (b) every file this build writes in every configuration (8 sizes x 3 content kinds x 6 write paths) parsed by the independent reader with both zstd decoders and as a plain zstd stream, file names checked against the published naming; (c) a golden directory and name tables produced by the pinned release: read back in all four configurations, file / HTTP URL / gRPC resource / S3 / Azure object names compared tuple by tuple and checked for injectivity; chunk encoders: klauspost one-shot fastest/default/best, libzstd levels 1 and 19, and three STREAMING encoders (frames that declare a window: default, 32 MiB window + checksum, best + 1 KiB window)",
+                rule="(a) files laid out by the harness's independent implementation of the published v2 format: chunk size {4 KiB, 64 KiB, 1 MiB, 3 MiB} x blob sizes around each x encoder {klauspost fastest/default/best, libzstd 1/19} x content kind x suffix shape, identity-compression v2 files, raw .v1 files, AC files with arbitrary suffixes; served by this build in every (storage mode, zstd implementation) through all read paths at boundary offsets; (b) every file this build writes in every configuration (8 sizes x 3 content kinds x 6 write paths) parsed by the independent reader with both zstd decoders and as a plain zstd stream, file names checked against the published naming; (c) a golden directory and name tables produced by the pinned release: read back in all four configurations, file / HTTP URL / gRPC resource / S3 / Azure object names compared tuple by tuple and checked for injectivity; chunk encoders: klauspost one-shot fastest/default/best, libzstd levels 1 and 19, and three STREAMING encoders (frames that declare a window: default, 32 MiB window + checksum, best + 1 KiB window); azblobproxy wire names: requests observed at a local fake of the Azure endpoint (HEAD, GET, PUT use one name per tuple, injective, equal to the golden table of the pinned tree)",
                 assumptions=["golden files were produced once by the pinned commit (plus the hook commit) with VERIF_REPO pointing at a worktree of it; they are committed under /verif/golden",
                              "the independent reader/writer (go/vlib/fmt2.go) is written from the format description in casblob.go's header comment and README"])
 
@@ -392,7 +394,7 @@ def check_C09(ctx):
     jobs = [Job(b, "TestVfC09", name="C09#%d" % i, timeout=budget + 120,
                 env={"VERIF_SHARD": "%d/%d" % (i, shards), "VERIF_BUDGET_S": str(budget), "GOMAXPROCS": "2"}) for i in range(shards)]
     return dict(level="exploration", jobs=jobs,
-                rule="exhaustive over a grammar of directory populations: every single entry, every ordered pair and (representative / all) ordered triples over 10 layout-kinds (v2 zstd CAS, v2 .v1 CAS, v2 AC, v2 RAW, legacy flat and two-level cas/ac/raw) with size patterns over {1 B, 1 block, 3 blocks}, atime rank = position; plus lost+found/.DS_Store at every level and duplicate files for one key; x max_size in {total+1 block, total, total-1 block, largest-1 block, 1 block} x storage mode after restart; real disk.New on each; access times only 1 ns / 1 us / 300 us / 7 ms apart: four same-kind entries in all 24 orders relative to their names; non-trivial = distinct (kind multiset, max_size class, mode, survivors) combinations",
+                rule="exhaustive over a grammar of directory populations: every single entry, every ordered pair and (representative / all) ordered triples over 10 layout-kinds (v2 zstd CAS, v2 .v1 CAS, v2 AC, v2 RAW, legacy flat and two-level cas/ac/raw) with size patterns over {1 B, 1 block, 3 blocks}, atime rank = position; plus lost+found/.DS_Store at every level and duplicate files for one key; x max_size in {total+1 block, total, total-1 block, largest-1 block, 1 block} x storage mode after restart; real disk.New on each; access times only 1 ns / 1 us / 300 us / 7 ms apart: four same-kind entries in all 24 orders relative to their names; a compressible three-block entry (one block on disk): fits where its logical size does not; non-trivial = distinct (kind multiset, max_size class, mode, survivors) combinations",
                 assumptions=["file access times are set explicitly with Chtimes, one hour apart (no ties)",
                              "reference: file-level simulation of 'evict oldest atime first; a file larger than max_size is dropped and displaces nothing'",
                              "duplicates are checked with a max_size that needs no eviction"])
